@@ -73,6 +73,8 @@ def gen_record(rng):
     maybe("bools", lambda: [rng.random() < 0.6 for _ in range(rng.choice((0, 1, 2, 3)))], 0.7)
     maybe("lists", lambda: [[rng.choice((1, 2, 3)) for _ in range(rng.choice((0, 1, 2)))] for _ in range(rng.choice((0, 1, 2, 3)))], 0.7)
     maybe("tw", lambda: rng.choice(TWINS), 0.3)
+    # integers that share a double with a neighbour (not part of the schema: only read as they are, never computed with)
+    maybe("big", lambda: rng.choice((2 ** 53, 2 ** 53 + 1, 2 ** 64 - 1, 2 ** 64 - 2, -(2 ** 63), -(2 ** 63) + 1, 2 ** 63, 2 ** 63 - 1)), 0.3)
     # arguments that are usually literals in programs may just as well come from the record: a pattern, a time format
     # (also one that is valid only up to a point), the name of a variable
     maybe("pat", lambda: rng.choice(REGEXES), 0.35)
